@@ -87,7 +87,7 @@ Definition ex_t : template :=
 Definition ex_a : assign := [("Verbose", "0"); ("Beta", ""); ("Gamma", "G"); ("N", "3")].
 Definition ex_m : smodel :=
   match tt_model [["SA"; "E1"; "SB"; "Act1"; "None"]] [] [] [] with Some m => m
-  | None => Build_smodel [] [] [] [] [] [] "" [] [] [] [] [] end.
+  | None => Build_smodel [] [] [] [] [] [] "" [] [] [] [] [] [] end.
 
 Example C17_engine_is_ref_nonvacuous :
   in_grammar17 ex_t = true /\ wf_assign17 ex_t ex_a = true
